@@ -752,6 +752,14 @@ def build_models(interp):
 
     reg(np.random.uniform, m_uniform, always=True)
 
+    # the unit-interval entry points of the same (legacy, global) generator: one draw per element, in [0, 1)
+    def m_unit_sample(size=None):
+        return draw("random_sample", sp.Integer(0), sp.Integer(1), size)
+
+    for _nm in ("random_sample", "random", "ranf", "sample"):
+        if hasattr(np.random, _nm):
+            reg(getattr(np.random, _nm), m_unit_sample, always=True)
+
     def m_rand(*dims):
         if not has_symbolic(dims):
             if len(dims) == 2 and dims[0] == 4:
